@@ -116,5 +116,6 @@ Definition D := ExtDelete.
 Definition X := ExtReplace.
 Definition RF := ReopenFails.
 Definition CF := ClearFails.
+Definition WB := WriteBlocked.
 Definition F := Files.
 Definition N := Node.
